@@ -122,6 +122,12 @@ CHECKS = {
         "assumptions": A_SIM + ["base histories contain no HTTP request outstanding at the fault (the 3 s / 5 s shutdown constants cannot be shortened)", "TLS and real listeners are not exercised"],
         "parts": [sim(25, 400)],
     },
+    "C18": {
+        "level": "exploration",
+        "rule": "the unmodified nats/nats.go adapter against a scriptable fake NATS server on loopback that enforces the control-line limit exactly as nats-server 2.6.6 does (argument part of PUB/HPUB/SUB > 4096 bytes => -ERR and connection closed); rapid generates 5-40 concurrent requests per case, each with a wire behaviour (one reply, several replies, silence, late reply, timeout pre-response followed by reply / silence / a second pre-response, empty 503, reply racing the deadline, subjects of every length in a band around the limit and far beyond with payload sizes of 1-5 digits), an event burst on a subscription, a long namespace Subscribe, and a server disconnect; oracle: exactly one completion per request, of a kind the behaviour allows, never a timeout earlier than the configured or extended deadline (one-sided), subjects that cannot fit complete with subjectTooLong and are never written, the server never has to drop the connection, events arrive in publish order and none after Unsubscribe returned, disconnect invokes the closed handler. Non-trivial = the case mixes >= 3 behaviours incl. a pre-response or a race; distinct by case hash",
+        "assumptions": ["real time: the only time-based verdicts are one-sided (a timeout earlier than the deadline)", "the fake server implements the subset of the NATS client protocol the adapter uses; its control-line rule was read from nats-server 2.6.6 parser.go"],
+        "parts": [{"engine": "natsrig", "test": "TestAdapter", "prop": "C18", "quick": {"cases": 14, "shards": 16, "timeout": 120}, "thorough": {"cases": 150, "shards": 16, "timeout": 1200}}],
+    },
     "C07": {
         "level": "exploration",
         "rule": "rapid stateful generation of request mixes (1-2 connections, subscribe/get/unsubscribe/call/auth/new/ill-formed methods, every outcome and order of the dependent access/get/call answers, events, deletes, revocations), end-of-history epilogue answering everything; oracle: reference client counts responses per id (never two, never unknown, error objects with string code/message) and at quiescence every id on an open connection has exactly one. Non-trivial = >=2 requests for one rid overlapped, or an unsubscribe/unsubscribe event/delete hit a rid with a pending request; distinct by hash of the executed script",
@@ -139,6 +145,8 @@ CHECKS = {
 SIM_NOTE = "trusted: the harness (mock mq, reference client/service, quiescence detector) and rapid; exploration never proves absence; goroutine interleavings inside the gateway are sampled only"
 
 META = {
+    "C18": {"engine": "natsrig", "design_ref": "6 C18", "technique": "property-based testing (rapid) of the real NATS adapter against a scriptable in-process server with generated per-request wire behaviours and faults",
+            "text": "the adapter has no tests in the repository; generated concurrent request mixes with every reply behaviour, boundary-length subjects and server loss are checked for exactly-one completion of an allowed kind.", "note": "trusted: the fake server's fidelity to the NATS client protocol; timing verdicts are one-sided only"},
     "C20": {"engine": "sim", "design_ref": "6 C20", "technique": "fault enumeration over rapid-generated base histories: Stop / messaging loss injected before every step, each variant judged by shutdown and restart oracles",
             "text": "every step of every generated base history is a fault point for Stop and for messaging loss; disconnection of all clients, refusal of new work, reporting of the cause, termination of Stop and restartability are asserted per variant.", "note": SIM_NOTE},
     "C11": {"engine": "sim", "design_ref": "6 C11", "technique": "fault enumeration over rapid-generated base histories: a disconnect injected before every step of every base, each variant judged by trace invariants and the end-state oracle",
